@@ -280,3 +280,15 @@ def check(P, R):
 
     # ---- d
     c09.check_shared_writes(P, R, 'C08.d', strict=True, same_for_all_threads_ok=True, skip_config_time=True, pure_memo_ok=True)
+
+    class _SubApply:
+        def __init__(self, R_):
+            self._R = R_
+
+        def ob(self, rule, *a, **kw):
+            kw['why'] = 'the errors_map responses are one object for all threads: what a request writes into headers it was handed shows up in another request'
+            return self._R.ob('C08.d' if rule == 'C09.c' else rule, *a, **kw)
+
+        def __getattr__(self, k):
+            return getattr(self._R, k)
+    c09.check_apply(P, _SubApply(R))
